@@ -620,7 +620,7 @@ void vp_violation(const char *key, const char *fmt, ...)
 {
 	va_list ap;
 	pthread_mutex_lock(&g_res_lock);
-	g_nviol_total++;
+	__atomic_store_n(&g_nviol_total, g_nviol_total + 1, __ATOMIC_RELAXED);
 	int dup = 0;
 	for (int i = 0; i < g_nviol; i++)
 		if (!strcmp(g_viol[i].key, key)) { dup = 1; break; }
